@@ -698,18 +698,76 @@ def r8(ctx, sp):
             rep.ok('C20.R8', 'scan.l:%d <%s> %r: %d path(s) that stay in the start condition leave the quote depth unchanged' % (r.line, scs, r.pat, len(stay)))
     return n
 
+# ------------------------------------------------------------------ R9
+
+def r9(ctx, sp):
+    """R9: a mode flag of flex's scanner is set together with the data it guards.  For static flags of flexscan(): when a
+    variable P is read under the true edge of a boolean flag G (`if (G && P)`), and G is set to true at a single site, then
+    every action path through that site also assigns P - otherwise the read sees whatever an earlier, unrelated part of
+    the input left in P (e.g. the `indented_code` of a previous indented line deciding where a %{ %} block between rules
+    ends)."""
+    rep = ctx.rep; prog = ctx.flex
+    fs = prog.fn('flexscan'); res = ir.Resolver(fs); cfg = prog.cfg(fs, cut=False)
+    statics = {}
+    for x in fs.ins:
+        if x.op in ('load', 'store'):
+            l = res.loc(x.ops[0] if x.op == 'load' else x.ops[1])
+            if l[0] == 'global' and l[1].startswith('flexscan.'): statics.setdefault(l[1], {'load': [], 'store': []})[x.op].append(x)
+    if len(statics) < 4: rep.broken('C20.R9: only %d static variables of flexscan found' % len(statics))
+    def boolean(g): return all(x.ops[0][0] == 'int' and x.ops[0][1] in (0, 1) for x in statics[g]['store'])
+    pairs = {}
+    for P, v in statics.items():
+        for L in v['load']:
+            for br, t in cfg.control_deps(L.blk):
+                if not br.ops: continue
+                for d in flow.value_slice(fs, br.ops[0]):
+                    if d.op != 'load': continue
+                    l = res.loc(d.ops[0])
+                    if l[0] == 'global' and l[1] in statics and l[1] != P and boolean(l[1]):
+                        # true edge?
+                        tgt = br.targets[0]
+                        dd = fs.def_of(br.ops[0])
+                        pol = True
+                        if dd is not None and dd.op == 'icmp' and dd.pred == 'eq' and ('int', 0) in dd.ops: pol = False
+                        if (t.name if hasattr(t, 'name') else t) == (br.targets[0] if pol else br.targets[1]): pairs.setdefault((l[1], P), []).append(L)
+    sw = max([x for x in fs.ins if x.op == 'switch'], key=lambda x: len(x.cases))
+    n = 0
+    for (G, P), loads in sorted(pairs.items()):
+        sets = [x for x in statics[G]['store'] if x.ops[0] == ('int', 1)]
+        if len(sets) != 1: continue
+        S = sets[0]
+        # the action (case of the switch) that contains S
+        case = [lab for cv, lab in sw.cases if any(y is S for y in prog.cfg(fs).reach_from_block(fs.bmap[lab], avoid=[z for z in [fs.bmap[l2].ins[0] for _, l2 in sw.cases if l2 != lab]]))]
+        if not case: rep.broken('C20.R9: the store %s = true is in no action of flexscan' % G)
+        others = {fs.bmap[lab] for cv, lab in sw.cases if lab != case[0]}
+        pe = PathEval(prog, fs, lambda bb, st, others=others: bb.name.startswith('sw.epilog') or bb in others)
+        try: paths = pe.run(fs.bmap[case[0]])
+        except pe.Unknown: rep.note('C20.R9: action of %s = true not evaluable' % G); continue
+        n += 1
+        gk = '@' + G; pk = '@' + P
+        bad = [tr for tr, how in paths if any(t[0] == 'store' and t[1] == gk and t[2] == 1 for t in tr) and not any(t[0] == 'store' and t[1] == pk for t in tr)]
+        g_, p_ = G.split('.')[1], P.split('.')[1]
+        if bad:
+            rep.fail('C20.R9', 'C20.R9:scan.l:%s:%s:flag-set-without-its-data' % (g_, p_), where(S),
+                     'an action sets %s = true but not %s, which is read under %s (scan.l:%s): the read sees the value left by an earlier, unrelated construct of the input' % (g_, p_, g_, loads[0].line),
+                     replay_input='an indented code line before the rules, then a multi-line %{ %} block between rules')
+        else:
+            rep.ok('C20.R9', 'flexscan: every path that sets %s = true also assigns %s (read under %s at scan.l:%s)' % (g_, p_, g_, loads[0].line))
+    return n
+
 def run(ctx):
     rep = ctx.rep
     sp = lex.parse_spec(ctx.art.source('scan.l'))
     rep.require(len(sp.rules) >= 250, 'scan.l model has only %d rules' % len(sp.rules))
     rep.setcount('scan_l_rules', len(sp.rules))
-    r1(ctx); r2(ctx, sp); r3(ctx, sp); r4(ctx); r5(ctx, sp); r6(ctx, sp); r7(ctx); r8(ctx, sp)
+    r1(ctx); r2(ctx, sp); r3(ctx, sp); r4(ctx); r5(ctx, sp); r6(ctx, sp); r7(ctx); r8(ctx, sp); r9(ctx, sp)
     rep.floor('C20.R1', 2, 'line_directive_out + the %top trampoline')
     rep.floor('C20.R2', 60, 'raw-echo rule x copying start condition pairs')
     rep.floor('C20.R3', 8, 'entry rules + 2 cross-module openers + section 3')
     rep.floor('C20.R4', 1, 'lineno in filter_fix_linedirs')
     rep.floor('C20.R6', 6, 'pushed start conditions of scan.l')
     rep.floor('C20.R7', 1, 'set_input_file')
+    rep.floor('C20.R9', 1, 'doing_codeblock / indented_code')
     rep.floor('C20.R8', 150, 'rules active in the 7 pushed start conditions + rules with a path that stays in its start condition')
     rep.floor('C20.R5', 250, 'one obligation per non-EOF rule of scan.l')
     rep.undecided += ['byte-for-byte equality of copied text for all contents', 'correctness of each linenum value passed to line_directive_out',
